@@ -366,3 +366,136 @@ Theorem C12_rest_example :
 Proof. exact merge_rest_instance_computed. Qed.
 Print Assumptions C12_rest_example.
 
+
+(* ---- associativity, positively (Proofs/MergeAssocPos.v): (L.R).X and L.(R.X) are equal up to
+   the order of set and keyed-list members whenever R and X give no common node values of
+   different kinds (scalar / list / map) -- the kinds of L do not matter; both groupings are
+   always defined; when every type allows a single kind the hypothesis holds for all valid
+   operands; the F18 witness changes kind between R and X. ---- *)
+From Coq Require Import List ZArith String Bool Arith Lia.
+From SMD Require Import Model.Value Model.Order Model.PathElem Model.PathSet Model.Schema Model.Walk
+  Model.Validate Model.FieldSet Model.Remove Model.Merge Model.Compare Model.Matcher Model.Reconcile
+  Model.Updater
+  Spec.PathsAsSets Spec.RefValid Spec.Resolve Spec.Agree Spec.RefDiff Spec.Examples
+  Proofs.OrderLaws Proofs.PathSetLaws Proofs.SchemaOk Proofs.FieldSetBase Proofs.FieldSetPaths
+  Proofs.FieldSetWf Proofs.FieldSetLaws Proofs.RemoveAbsent Proofs.RemoveWf Proofs.ResolveLaws
+  Proofs.UpdaterLaws Proofs.UpdaterLaws2 Proofs.MergeLaws Proofs.MergeAgree
+  Proofs.RemoveFrame Proofs.EnLaws Proofs.NodeSet Proofs.KeyFields Proofs.VeqbResolve
+  Proofs.SetCheckers Proofs.ApplyEffect Proofs.RefDiffBoth Proofs.RefDiffLaws Proofs.RefDiffPresent
+  Proofs.ApplyInv Proofs.History Proofs.Reapply Proofs.ConflictsApply.
+From SMD Require Import Proofs.MergeBase Proofs.MergeKeeps Proofs.MergeThru Proofs.MergeRestBase
+  Proofs.MergeRest1 Proofs.MergeRest2a Proofs.MergeRest2 Proofs.MergeRest3 Proofs.MergeRest
+  Proofs.SameLeaves Proofs.MergeAssoc.
+From SMD Require Import Proofs.CommuteLeaves.
+From SMD Require Proofs.ReconcileBase Proofs.MergeWf Proofs.TransparentMerge Proofs.HollowFreeMerge
+  Proofs.HollowFreeBase Proofs.ValidateLaws.
+From SMD Require Import Proofs.MergeAssocPos.
+Theorem C12_merge_is_associative_up_to_member_order :
+  forall (s : schema) (R : typeref -> Prop) (tr : typeref) (l r x lr rx a b : value),
+         schema_ok s R ->
+         family_refs s R ->
+         lists_pure s R ->
+         R tr ->
+         wf_value l = true ->
+         wf_value r = true ->
+         wf_value x = true ->
+         conforms s tr false l = true ->
+         conforms s tr false r = true ->
+         conforms s tr false x = true ->
+         plain l = true ->
+         plain r = true ->
+         plain x = true ->
+         same_kinds s tr r x ->
+         merge s tr l r = Some (Some lr) ->
+         merge s tr lr x = Some (Some a) ->
+         merge s tr r x = Some (Some rx) ->
+         merge s tr l rx = Some (Some b) -> veq_assoc s tr a b = true.
+Proof. exact merge_associative_rx. Qed.
+Print Assumptions C12_merge_is_associative_up_to_member_order.
+
+Theorem C12_merge_is_associative_all_same_kinds :
+  forall (s : schema) (R : typeref -> Prop) (tr : typeref) (l r x lr rx a b : value),
+         schema_ok s R ->
+         family_refs s R ->
+         lists_pure s R ->
+         R tr ->
+         wf_value l = true ->
+         wf_value r = true ->
+         wf_value x = true ->
+         conforms s tr false l = true ->
+         conforms s tr false r = true ->
+         conforms s tr false x = true ->
+         plain l = true ->
+         plain r = true ->
+         plain x = true ->
+         same_kinds s tr l r ->
+         same_kinds s tr r x ->
+         same_kinds s tr l x ->
+         merge s tr l r = Some (Some lr) ->
+         merge s tr lr x = Some (Some a) ->
+         merge s tr r x = Some (Some rx) ->
+         merge s tr l rx = Some (Some b) -> veq_assoc s tr a b = true.
+Proof. exact merge_associative. Qed.
+Print Assumptions C12_merge_is_associative_all_same_kinds.
+
+Theorem C12_both_groupings_defined :
+  forall (s : schema) (R : typeref -> Prop) (tr : typeref) (l r x : value),
+         schema_ok s R ->
+         family_refs s R ->
+         lists_pure s R ->
+         R tr ->
+         wf_value l = true ->
+         wf_value r = true ->
+         wf_value x = true ->
+         conforms s tr false l = true ->
+         conforms s tr false r = true ->
+         conforms s tr false x = true ->
+         plain l = true ->
+         plain r = true ->
+         plain x = true ->
+         exists lr rx a b : value,
+           merge s tr l r = Some (Some lr) /\
+           merge s tr lr x = Some (Some a) /\
+           merge s tr r x = Some (Some rx) /\ merge s tr l rx = Some (Some b).
+Proof. exact merge_associative_total. Qed.
+Print Assumptions C12_both_groupings_defined.
+
+Theorem C12_single_kind_types_have_same_kinds :
+  forall (s : schema) (R : typeref -> Prop),
+         schema_ok s R ->
+         family_refs s R ->
+         forall (tr : typeref) (d1 d2 : bool) (u v : value),
+         single_kind s R ->
+         R tr -> conforms s tr d1 u = true -> conforms s tr d2 v = true -> same_kinds s tr u v.
+Proof. exact single_kind_same_kinds. Qed.
+Print Assumptions C12_single_kind_types_have_same_kinds.
+
+Theorem C12_F18_witness_changes_kind_between_r_and_x :
+  ~ same_kinds ded_schema (ded_named "deduced") assoc_R assoc_X.
+Proof. exact F18_witness_changes_kind_r_x. Qed.
+Print Assumptions C12_F18_witness_changes_kind_between_r_and_x.
+
+Theorem C12_associativity_example :
+  schema_ok ex_schema FieldSetLaws.ex_R /\
+         family_refs ex_schema FieldSetLaws.ex_R /\
+         lists_pure ex_schema FieldSetLaws.ex_R /\
+         FieldSetLaws.ex_R ex_rt /\
+         wf_value ax_L = true /\
+         wf_value ax_R = true /\
+         wf_value ax_X = true /\
+         conforms ex_schema ex_rt false ax_L = true /\
+         conforms ex_schema ex_rt false ax_R = true /\
+         conforms ex_schema ex_rt false ax_X = true /\
+         plain ax_L = true /\
+         plain ax_R = true /\
+         plain ax_X = true /\
+         same_kinds ex_schema ex_rt ax_L ax_R /\
+         same_kinds ex_schema ex_rt ax_R ax_X /\
+         same_kinds ex_schema ex_rt ax_L ax_X /\
+         merge ex_schema ex_rt ax_L ax_R = Some (Some ax_LR) /\
+         merge ex_schema ex_rt ax_LR ax_X = Some (Some ax_A) /\
+         merge ex_schema ex_rt ax_R ax_X = Some (Some ax_RX) /\
+         merge ex_schema ex_rt ax_L ax_RX = Some (Some ax_B) /\ veqb ax_A ax_B = false.
+Proof. exact merge_associative_example_hypotheses. Qed.
+Print Assumptions C12_associativity_example.
+
